@@ -51,6 +51,11 @@ func C08(c *core.Ctx) {
 				{concSend(cf, "raw", small, "b1", true), concSend(cf, "message", 2100, "b2", true)}}
 		}},
 	}
+	confs = append(confs, conf{"70 KB message + small message + SendRaw", ccfg{host: []byte("h")}, func(cf ccfg) [][]concOp {
+		return [][]concOp{{concSend(cf, "message", 70000, "", true)}, {concSend(cf, "message", small, "", true)}, {{kind: "W", raw: []byte("\x93\xa3RAW\x01\x80")}}}
+	}}, conf{"acks: 70 KB packed message + SendRaw", ccfg{host: []byte("h"), ack: true, timeout: time.Second}, func(cf ccfg) [][]concOp {
+		return [][]concOp{{concSend(cf, "packed", 70000, "big-1", true)}, {{kind: "W", raw: []byte("\x93\xa3RAW\x01\x80")}}}
+	}})
 	if c.Thorough() {
 		confs = append(confs, conf{"4 senders mixed sizes", ccfg{host: []byte("h")}, func(cf ccfg) [][]concOp {
 			return [][]concOp{{concSend(cf, "message", 6500, "", true)}, {concSend(cf, "message", small, "", true)}, {concSend(cf, "packed", 2049, "", true)}, {{kind: "W", raw: bytes.Repeat([]byte{0xc0}, 5000)}}}
